@@ -264,7 +264,7 @@ impl Property for C10 {
         "generated scope trees (blocks, conditionals, loops, local declarations, const items in any order) whose identifiers are drawn from a pool of 5 names plus register aliases and builtin consts, so shadowing, forward references to consts, same-block redeclaration, use inside an own initialiser, locals used inside const initialisers and aliases in const context all occur; (1) Ok/Err and the definition classes of all identifier occurrences vs the scope model; (2) injective renaming of all declarations leaves the lowered instructions unchanged; non-trivial = a shadowing pair, a forward reference, or a use across a const barrier"
     }
     fn tape_len(&self, tier: Tier) -> usize { tier.pick(150, 300) }
-    fn cases(&self, tier: Tier) -> u32 { tier.pick(5000, 300000) }
+    fn cases(&self, tier: Tier) -> u32 { tier.pick(200000, 4000000) }
     fn required_labels(&self, _tier: Tier) -> Vec<&'static str> { vec!["model:ok", "model:error", "shadowing", "forward_ref", "redeclared", "const_barrier_use", "renamed_compiled"] }
 
     fn generate(&self, tape: &mut Tape, tier: Tier, _known: &Known) -> Value {
